@@ -6,13 +6,14 @@ from .common import find_calls, one_call, comparisons, follow_value, TRUTH, flip
 from . import C16
 
 EXPLANATION = (
-    "Decides structural necessary conditions of C13 from MIR: (R1) every write to the latest-per-author table outside the "
-    "populate migration is control-dependent on a read of the existing row (an unconditional overwrite lets an older arrival "
-    "lower the head); (R2) has_news_for reports news iff cmp(ours,theirs)=Greater or the author is unknown, has_news_for_us "
-    "calls it with the peer's heads as receiver and the locally computed heads as argument, AuthorHeads::insert keeps the "
-    "maximum; (R3) AuthorHeads::encode never funnels the (author,timestamp) pairs through a map whose key lacks the author, "
-    "and drops the last pushed pair iff the serialized size is Greater than the limit; (R4) document removal erases the "
-    "heads (shared with C16.R1). NOT decided: exact bytes kept under a limit."
+    'Decides structural necessary conditions of C13 from MIR: (R1) every write to the latest-per-author table outside the '
+    'populate migration is control-dependent on a read of the existing row (an unconditional overwrite lets an older '
+    'arrival lower the head); (R2) has_news_for reports news iff cmp(ours,theirs)=Greater or the author is unknown, '
+    "has_news_for_us calls it with the peer's heads as receiver and the locally computed heads as argument, "
+    'AuthorHeads::insert keeps the maximum; (R3) AuthorHeads::encode, evaluated with abstract collections on (heads table, '
+    'size limit) cells under the size model 1 + 40 per pair, emits all heads when unlimited (authors sharing a timestamp '
+    'are all kept) and otherwise the longest newest-first prefix that fits; (R4) document removal erases the heads (shared '
+    'with C16.R1). NOT decided: exact bytes kept under a limit.'
 )
 ASSUMPTIONS = ["redb tables are identified by their key/value types", "postcard size computation trusted"]
 
